@@ -112,7 +112,7 @@ func (m *c07mon) after(s *sim, st rig.StepResult, ctx stepCtx) {
 	if disconnectedNow && m.o.resetOnDisconnect && (S != 1 || T != 1) {
 		vk.Violation(s.t, c, "C07/reset-on-disconnect-missing", "after the disconnect the counters are S=%d T=%d, expected 1/1\n%s", S, T, s.history())
 	}
-	if ctx.kind == "in" && ctx.msgType == "5" && ctx.wellFormed && ctx.loggedOnBefore && m.o.resetOnLogout && ctx.seq == ctx.tBefore && !connectedAfter && !(m.o.resetOnDisconnect) {
+	if ctx.kind == "in" && ctx.msgType == "5" && ctx.wellFormed && ctx.loggedOnBefore && m.o.resetOnLogout && !connectedAfter && !(m.o.resetOnDisconnect) {
 		if S != 1 || T != 1 {
 			vk.Violation(s.t, c, "C07/reset-on-logout-missing", "after the logout the counters are S=%d T=%d, expected 1/1\n%s", S, T, s.history())
 		}
@@ -431,7 +431,16 @@ func c07Property(t *rapid.T) {
 			if !s.r.V.IsLoggedOn() {
 				return // not logged on (a no-op step: rapid gives up when too many draws in a row are skipped)
 			}
-			_, f := s.p.Next("5", nil)
+			// the Logout usually carries the next number; a counterparty whose counter is behind
+			// (or ahead) still logs out, and ResetOnLogout still applies
+			var f []byte
+			switch d := rapid.SampledFrom([]int{0, 0, 0, 0, -1, -2, 2}).Draw(t, "logout-number"); {
+			case d == 0 || s.r.T()+d < 1:
+				_, f = s.p.Next("5", nil)
+			default:
+				f = s.p.Frame("5", s.r.T()+d, nil, peer.Opt{})
+				mon.feat[fmt.Sprintf("logout-numbered-%+d", d)] = true
+			}
 			s.deliver(f, true)
 			if s.r.V.IsConnected() {
 				s.disconnect()
